@@ -35,3 +35,32 @@ Definition quiescent_ok_b (sizes : nat * nat * nat) (l : list obs) : bool :=
    by the subscriber that started them) must be that instance *)
 Definition teardown_own_b (steps : list (option nat * list nat)) : bool :=
   forallb (fun oc => match fst oc with Some a => forallb (Nat.eqb a) (snd oc) | None => true end) steps.
+
+(* every subscriber in [ss] (the subscribers that were registered and, by the end of the history, asked
+   to leave / whose trigger ended / resolver shut down) has had its completed channel closed *)
+Definition closes13 (l : list obs) : list sid := flat_map (fun o => match o with OClosed s => [s] | _ => [] end) l.
+Definition all_completed_b (ss : list sid) (l : list obs) : bool := forallb (fun s => mem s (closes13 l)) ss.
+
+(* trigger identity on the implementation: observations (rendered input class, header-hash class,
+   trigger id class) -- byte strings interned to numbers by equality; two observations have the same
+   id iff they have the same input and the same header hash *)
+Definition ident_ok (l : list (nat * nat * nat)) : Prop :=
+  forall a b, In a l -> In b l ->
+    (snd a = snd b <-> fst (fst a) = fst (fst b) /\ snd (fst a) = snd (fst b)).
+Definition ident_pair_b (a b : nat * nat * nat) : bool :=
+  Bool.eqb (snd a =? snd b) ((fst (fst a) =? fst (fst b)) && (snd (fst a) =? snd (fst b))).
+Definition ident_ok_b (l : list (nat * nat * nat)) : bool := forallb (fun a => forallb (ident_pair_b a) l) l.
+
+Lemma ident_ok_b_ok : forall l, ident_ok_b l = true <-> ident_ok l.
+Proof.
+  intros l. unfold ident_ok_b, ident_ok. rewrite forallb_forall. split.
+  - intros H a b Ha Hb. specialize (H a Ha). rewrite forallb_forall in H. specialize (H b Hb).
+    unfold ident_pair_b in H. apply Bool.eqb_prop in H.
+    rewrite <- Nat.eqb_eq, H, andb_true_iff, !Nat.eqb_eq. tauto.
+  - intros H a Ha. apply forallb_forall. intros b Hb. specialize (H a b Ha Hb).
+    unfold ident_pair_b. apply Bool.eqb_true_iff.
+    destruct (Nat.eqb_spec (snd a) (snd b)) as [E|E].
+    + symmetry. apply andb_true_iff. rewrite !Nat.eqb_eq. tauto.
+    + symmetry. apply andb_false_iff. destruct (Nat.eqb_spec (fst (fst a)) (fst (fst b))); auto.
+      destruct (Nat.eqb_spec (snd (fst a)) (snd (fst b))); auto. exfalso. tauto.
+Qed.
